@@ -1381,15 +1381,33 @@ namespace
     std::string mode, err;
     if (!get_int(args, "n", n, err) || !get_str(args, "mode", mode, err))
       return fail(err);
-    if (mode != "idle" && mode != "afterresp")
+    if (mode != "idle" && mode != "afterresp" && mode != "midresp")
       return fail("bad value for mode");
+    // midresp: the response is `size` bytes long; the peer reads the head and a little of the body and then closes
+    // its socket with the rest unread (the kernel answers the server's further segments with RST): the write in
+    // flight fails while the connection's read is still pending
+    long long size(5);
+    if (mode == "midresp")
+    {
+      size = 8388608;
+      auto it(args.find("size"));
+      if (it != args.end())
+        size = std::atoll(it->second.c_str());
+    }
+    long long read_before_close(65536);
+    {
+      auto it(args.find("read"));
+      if (it != args.end())
+        read_before_close = std::atoll(it->second.c_str());
+    }
+    std::string const body_text((mode == "midresp") ? std::string(static_cast<size_t>(size), 'x') : std::string("hello"));
 
     std::atomic<int> connected(0), disconnected(0), handled(0);
     ServerBox box;
     if (!box.start([&](http_server_type& srv)
         {
           srv.request_received_event(
-            [&handled](http_connection::weak_pointer weak_ptr,
+            [&handled, &body_text](http_connection::weak_pointer weak_ptr,
                        http_request const&, std::string const&)
           {
             ++handled;
@@ -1397,7 +1415,7 @@ namespace
             if (connection)
             {
               via::http::tx_response response(via::http::response_status::code::OK);
-              connection->send(std::move(response), std::string("hello"));
+              connection->send(std::move(response), std::string(body_text));
             }
           });
           srv.socket_connected_event([&connected](http_connection::weak_pointer)
@@ -1413,7 +1431,23 @@ namespace
       Peer peer;
       if (!peer.connect(box.port(), true, 5000, err))
       { ++peer_errors; continue; }
-      if (mode == "afterresp")
+      if (mode == "midresp")
+      {
+        if (!peer.write_all("GET / HTTP/1.1\r\nHost: localhost\r\n\r\n", 2000))
+        { ++peer_errors; peer.abort_socket(); continue; }
+        std::string got, chunk;
+        auto t0(clock_type::now());
+        while (static_cast<long long>(got.size()) < read_before_close && ms_since(t0) < 3000)
+        {
+          chunk.clear();
+          if (peer.read_some(chunk, 3000 - ms_since(t0)) != Peer::Rd::Data)
+            break;
+          got += chunk;
+        }
+        if (got.size() < 16)
+          ++peer_errors;
+      }
+      else if (mode == "afterresp")
       {
         if (!peer.write_all("GET / HTTP/1.1\r\nHost: localhost\r\n\r\n", 2000))
         { ++peer_errors; peer.abort_socket(); continue; }
